@@ -362,9 +362,16 @@ func (w *World) tOne(toks []string) {
 	conc := false
 	var third []byte
 	hasThird := false
+	twoctx := false
 	for _, t := range toks[5:] {
 		if t == "conc" {
 			conc = true
+		}
+		if t == "twoctx" {
+			// two stores of one instance connect to the peer one after the other, each under its own
+			// context; the store that connected first is closed (its context ends) before anything is
+			// sent: the channel belongs to the instance, the second store must go on hearing the peer
+			twoctx = true
 		}
 		if strings.HasPrefix(t, "third=") {
 			// a peer that is not an end of the channel publishes on the pairwise topic (its name is
@@ -380,9 +387,22 @@ func (w *World) tOne(toks []string) {
 		wg.Add(1)
 		go func() { _ = ca.Connect(ctx, tpeer(b)); wg.Done() }()
 	}
-	go func() { errA = ca.Connect(ctx, tpeer(b)); wg.Done() }()
+	ctxFirst, cancelFirst := context.WithCancel(ctx)
+	defer cancelFirst()
+	if twoctx {
+		go func() { errA = ca.Connect(ctxFirst, tpeer(b)); wg.Done() }()
+	} else {
+		go func() { errA = ca.Connect(ctx, tpeer(b)); wg.Done() }()
+	}
 	go func() { errB = cb.Connect(ctx, tpeer(a)); wg.Done() }()
 	wg.Wait()
+	if twoctx {
+		if err := ca.Connect(ctx, tpeer(b)); err != nil && errA == nil {
+			errA = err
+		}
+		cancelFirst()
+		time.Sleep(5 * time.Millisecond)
+	}
 	pa, pb := commaHex(toks[3]), commaHex(toks[4])
 	if hasThird {
 		bus.mu.Lock()
